@@ -123,9 +123,10 @@ def vid(v) -> int:
     return int(v.name[1:])
 
 
-def to_y0(g):
+def build_y0(g, V, warm=None):
     """The y0 graph of a case. One graph in five (chosen by the case itself, so reproducibly) is built the way an analyst edits a graph:
-    part of the edges, some queries (which a careless cache would remember), then the rest of the edges through the public add_* methods.
+    part of the nodes and edges, some queries (which a careless cache would remember; [warm] is the calling property's own entry point), then the rest
+    through the public add_* methods.
     The underlying networkx graphs receive nodes and edges in the same order either way."""
     from y0.graph import NxMixedGraph
     import zlib
@@ -142,9 +143,21 @@ def to_y0(g):
     while kn > 1 and nodes[kn - 1] not in early:
         kn -= 1
     gr = NxMixedGraph.from_edges(nodes=nodes[:kn], directed=directed[:kd], undirected=undirected[:ku])
-    for query in (lambda: gr.disorient(), lambda: gr.districts(), lambda: gr.topological_sort(), lambda: gr.moralize(),
-                  lambda: gr.ancestors_inclusive(nodes[0]), lambda: gr.descendants_inclusive(nodes[0]),
-                  lambda: gr.get_markov_blanket(nodes[0]), lambda: gr.is_connected(), lambda: gr.joint()):
+    def separations():
+        from y0.algorithm.conditional_independencies import are_d_separated
+        present = nodes[:kn]
+        for i, a in enumerate(present):
+            for b in present[i + 1:]:
+                are_d_separated(gr, a, b, conditions=[])
+                are_d_separated(gr, a, b, conditions=[c for c in present if c not in (a, b)])
+    queries = [lambda: gr.disorient(), lambda: gr.districts(), lambda: gr.topological_sort(), lambda: gr.moralize(),
+               lambda: gr.is_connected(), lambda: gr.joint(), separations]
+    for v in nodes[:kn]:
+        queries += [lambda v=v: gr.ancestors_inclusive(v), lambda v=v: gr.descendants_inclusive(v), lambda v=v: gr.get_markov_blanket(v)]
+    queries.append(lambda: gr.ancestors_inclusive(set(nodes[:kn])))
+    if warm is not None:
+        queries.append(lambda: warm(gr, set(nodes[:kn])))     # the property's own entry point, on the graph as it stands now
+    for query in queries:
         try:
             query()
         except Exception:  # noqa: BLE001  -- a warm-up query may not apply to this graph (cycles, ...)
@@ -156,6 +169,10 @@ def to_y0(g):
     for a, b in undirected[ku:]:
         gr.add_undirected_edge(a, b)
     return gr
+
+
+def to_y0(g, warm=None):
+    return build_y0(g, V, warm)
 
 
 def from_y0(gr) -> dict:
